@@ -93,11 +93,11 @@ type EdFlags struct {
 
 // EdFacts holds everything about (pk, msg, sig) that does not depend on flags.
 type EdFacts struct {
-	LenOK    bool
-	SBelowL  bool
-	A, R     DecodeInfo
-	ASmall   bool
-	RSmall   bool
+	LenOK        bool
+	SBelowL      bool
+	A, R         DecodeInfo
+	ASmall       bool
+	RSmall       bool
 	Cofactored   bool // [8]([S]B - [k]A - R) == O   (only meaningful if A.OK && R.OK)
 	Cofactorless bool // Encode([S]B - [k]A) == R bytes (only meaningful if A.OK)
 }
